@@ -3,6 +3,7 @@
 package shmipc
 
 import (
+	"bytes"
 	"encoding/json"
 	"fmt"
 	"os"
@@ -30,7 +31,8 @@ import (
 // onWriteReady as the epoll loop would; oracle: the peer receives exactly the bytes written, in order.
 
 type c18Case struct {
-	Kind    string `json:"kind"` // read | write | writev
+	Kind    string `json:"kind"` // read | write | writev | readbfs
+	Path    []c18Op `json:"path,omitempty"`
 	Sizes   []int  `json:"sizes"`
 	Chunk   int    `json:"chunk"`
 	Pattern string `json:"pattern"`
@@ -338,7 +340,282 @@ func c18Run(cs c18Case) (string, int) {
 	if cs.Kind == "read" {
 		return c18RunRead(cs)
 	}
+	if cs.Kind == "readbfs" {
+		v, _, calls := c18RunPath(cs.Path)
+		return v, calls
+	}
 	return c18RunWrite(cs)
+}
+
+// ---- read side, explicit-state search -------------------------------------------------------------------------
+//
+// The fixed patterns above keep one consumption habit for a whole stream. The read buffer's behaviour depends on
+// its HISTORY (a buffer that grew to 8 MiB and was halved again keeps its capacity; a partly consumed buffer has a
+// non-zero start offset), so the second search is over operation sequences from every reachable buffer state:
+// breadth first, each transition = "the peer writes f bytes and the epoll loop reports them, the callback consumes
+// according to p" on the REAL handler, successor states computed by replaying the shortest path on a fresh handler
+// plus one operation. States are merged on exactly what the handler's branches look at: len and cap/len of the
+// read buffer, start offset zero or not, end offset at the end of the buffer or not, and the class of the number
+// of unconsumed bytes (0, 1, < 64 KiB, < 1 MiB (the early-callback threshold), more).
+// Oracle in every callback of every transition: the view is exactly stream[consumed : consumed+len(view)], it
+// reaches at least as far as any earlier view, and once the operation is over it reaches the last byte written.
+
+type c18Op struct {
+	Feed   string `json:"feed"`
+	Policy string `json:"policy"`
+}
+
+var c18Feeds = []string{"1", "1000", "toEnd", "toEnd+1", "4M+64K"}
+var c18Policies = []string{"all", "none", "half", "all-but-one"}
+
+const c18MaxStream = 40 << 20
+
+var c18Stream []byte
+
+func c18StreamInit() {
+	if c18Stream != nil {
+		return
+	}
+	c18Stream = make([]byte, c18MaxStream+1)
+	for i := range c18Stream {
+		c18Stream[i] = c18Byte(i)
+	}
+}
+
+type c18PathCB struct {
+	policy   string
+	consumed int
+	seen     int
+	viol     string
+	calls    int
+}
+
+func (cb *c18PathCB) onRemoteClose() {}
+func (cb *c18PathCB) onLocalClose()  {}
+func (cb *c18PathCB) onEventData(buf []byte, conn eventConn) error {
+	cb.calls++
+	if cb.viol != "" {
+		conn.commitRead(len(buf))
+		return nil
+	}
+	if cb.consumed+len(buf) < cb.seen {
+		cb.viol = fmt.Sprintf("callback %d was shown %d bytes from position %d, but bytes up to position %d had been shown before (unconsumed bytes lost)", cb.calls, len(buf), cb.consumed, cb.seen)
+		return nil
+	}
+	if cb.consumed+len(buf) > len(c18Stream) || !bytes.Equal(buf, c18Stream[cb.consumed:cb.consumed+len(buf)]) {
+		at := -1
+		for i, b := range buf {
+			if cb.consumed+i >= len(c18Stream) || b != c18Stream[cb.consumed+i] {
+				at = i
+				break
+			}
+		}
+		cb.viol = fmt.Sprintf("callback %d: the view (%d bytes) does not start at the first unconsumed byte (stream position %d): byte %d of the view differs from what was written there (bytes repeated, lost or reordered)", cb.calls, len(buf), cb.consumed, at)
+		return nil
+	}
+	if cb.consumed+len(buf) > cb.seen {
+		cb.seen = cb.consumed + len(buf)
+	}
+	n := 0
+	switch cb.policy {
+	case "all":
+		n = len(buf)
+	case "half":
+		n = len(buf) / 2
+	case "all-but-one":
+		n = len(buf) - 1
+		if n < 0 {
+			n = 0
+		}
+	}
+	conn.commitRead(n)
+	cb.consumed += n
+	return nil
+}
+
+func c18StateKey(c *connEventHandler) string {
+	pend := c.readEndOff - c.readStartOff
+	cls := "0"
+	switch {
+	case pend == 0:
+	case pend == 1:
+		cls = "1"
+	case pend < 64<<10:
+		cls = "<64K"
+	case pend < 1<<20:
+		cls = "<1M"
+	default:
+		cls = ">=1M"
+	}
+	return fmt.Sprintf("len=%d cap/len=%d start>0=%v atEnd=%v pending=%s", len(c.readBuffer), cap(c.readBuffer)/len(c.readBuffer), c.readStartOff > 0, c.readEndOff == len(c.readBuffer), cls)
+}
+
+// c18RunPath replays a path on a fresh real handler. key == "" when the last operation is not enabled (it would
+// take the stream past the bound).
+func c18RunPath(path []c18Op) (viol string, key string, calls int) {
+	defer func() {
+		if r := recover(); r != nil {
+			viol = fmt.Sprintf("panic: %v", r)
+		}
+	}()
+	c18StreamInit()
+	c, d, peer := c18NewConn(0)
+	defer c18Close(c, d, peer)
+	cb := &c18PathCB{}
+	c.callback = cb
+	sent := 0
+	for k, op := range path {
+		f := 0
+		switch op.Feed {
+		case "1":
+			f = 1
+		case "1000":
+			f = 1000
+		case "toEnd":
+			f = len(c.readBuffer) - c.readEndOff
+		case "toEnd+1":
+			f = len(c.readBuffer) - c.readEndOff + 1
+		case "4M+64K":
+			f = 4<<20 + 64<<10
+		}
+		if f == 0 || sent+f > c18MaxStream {
+			return "", "", cb.calls
+		}
+		cb.policy = op.Policy
+		end := sent + f
+		for sent < end {
+			pe := sent + 96<<10
+			if pe > end {
+				pe = end
+			}
+			for sent < pe {
+				n, err := syscall.Write(peer, c18Stream[sent:pe])
+				if err == syscall.EAGAIN {
+					c.onReadReady()
+					continue
+				}
+				if err != nil {
+					return "socket write: " + err.Error(), "", cb.calls
+				}
+				sent += n
+			}
+			if err := c.onReadReady(); err != nil {
+				return "onReadReady: " + err.Error(), "", cb.calls
+			}
+			if cb.viol != "" {
+				return fmt.Sprintf("operation %d %+v: %s", k+1, op, cb.viol), "", cb.calls
+			}
+		}
+		if cb.seen != sent {
+			return fmt.Sprintf("operation %d %+v: %d bytes were written and reported readable, the callback was shown the stream up to position %d only", k+1, op, sent, cb.seen), "", cb.calls
+		}
+	}
+	return "", c18StateKey(c), cb.calls
+}
+
+type c18Level struct {
+	States []c18Found `json:"states"`
+	Trans  int64      `json:"trans"`
+	Calls  int64      `json:"calls"`
+	Viol   string     `json:"viol,omitempty"`
+	VPath  []c18Op    `json:"vpath,omitempty"`
+}
+
+type c18Found struct {
+	Key  string  `json:"key"`
+	Path []c18Op `json:"path"`
+}
+
+// c18BFS: the workers of one run share the search: at each level worker i expands the frontier states with
+// index % n == i, writes what it found next to the others' files and waits for theirs (the merge is deterministic:
+// frontier order, then operation order).
+func c18BFS(w *worker, depth int) *vrt.Result {
+	res := &vrt.Result{Name: "c18/read-bfs", Exhaustive: true, Outcomes: map[string]int64{}, Counts: map[string]int64{}, FailCount: map[string]int64{}}
+	dir := os.Getenv("VERIF_SCRATCH")
+	if dir == "" {
+		dir = os.TempDir()
+	}
+	dir = fmt.Sprintf("%s/c18bfs.%s", dir, w.tier)
+	os.MkdirAll(dir, 0o755)
+	_, k0, _ := c18RunPath(nil)
+	seen := map[string]bool{k0: true}
+	frontier := []c18Found{{Key: k0}}
+	for level := 1; level <= depth && len(frontier) > 0; level++ {
+		mine := c18Level{}
+		for i, st := range frontier {
+			if i%w.shardN != w.shardI || mine.Viol != "" {
+				continue
+			}
+			for _, f := range c18Feeds {
+				for _, p := range c18Policies {
+					path := append(append([]c18Op{}, st.Path...), c18Op{f, p})
+					v, key, calls := c18RunPath(path)
+					if v == "" && key == "" {
+						continue
+					}
+					mine.Trans++
+					mine.Calls += int64(calls)
+					if v != "" && mine.Viol == "" {
+						mine.Viol, mine.VPath = v, path
+					}
+					if v == "" {
+						mine.States = append(mine.States, c18Found{key, path})
+					}
+				}
+			}
+		}
+		b, _ := json.Marshal(mine)
+		tmp := fmt.Sprintf("%s/L%d.%d.tmp", dir, level, w.shardI)
+		os.WriteFile(tmp, b, 0o644)
+		os.Rename(tmp, fmt.Sprintf("%s/L%d.%d.json", dir, level, w.shardI))
+		var next []c18Found
+		for i := 0; i < w.shardN; i++ {
+			var lv c18Level
+			for {
+				b, err := os.ReadFile(fmt.Sprintf("%s/L%d.%d.json", dir, level, i))
+				if err == nil && json.Unmarshal(b, &lv) == nil {
+					break
+				}
+				if w.expired() {
+					res.Exhaustive, res.CapHit = false, "deadline (waiting for the other workers' part of the level)"
+					return res
+				}
+				time.Sleep(5 * time.Millisecond)
+			}
+			if w.shardI == 0 {
+				res.Transitions += lv.Trans
+				res.Execs += lv.Trans
+				res.Counts["callbacks"] += lv.Calls
+			}
+			if lv.Viol != "" && len(res.Failures) == 0 && w.shardI == 0 {
+				res.FailCount["kernel-io-readbfs"]++
+				cs := c18Case{Kind: "readbfs", Path: lv.VPath}
+				res.Failures = append(res.Failures, &vrt.Failure{Kind: "oracle", Sig: "kernel-io-readbfs", Msg: fmt.Sprintf("%+v: %s", lv.VPath, lv.Viol), Params: cs})
+			}
+			for _, s := range lv.States {
+				if !seen[s.Key] {
+					seen[s.Key] = true
+					next = append(next, s)
+				}
+			}
+		}
+		frontier = next
+		if w.shardI == 0 {
+			res.Counts[fmt.Sprintf("new-states-level-%d", level)] = int64(len(next))
+		}
+		if w.expired() {
+			res.Exhaustive, res.CapHit = false, fmt.Sprintf("deadline after level %d", level)
+			break
+		}
+	}
+	if w.shardI == 0 {
+		res.States = int64(len(seen))
+		for k := range seen {
+			res.Outcomes[k] = 1
+		}
+		res.Counts["frontier-left-at-depth-bound"] = int64(len(frontier))
+	}
+	return res
 }
 
 func TestVerif_C18(t *testing.T) {
@@ -386,4 +663,9 @@ func TestVerif_C18(t *testing.T) {
 	}
 	res.States = int64(len(res.Outcomes))
 	w.out.Scenarios = append(w.out.Scenarios, &scenarioResult{Name: "c18/kernel-io", Result: res})
+	depth := 5
+	if w.thorough() {
+		depth = 7
+	}
+	w.out.Scenarios = append(w.out.Scenarios, &scenarioResult{Name: "c18/read-bfs", Result: c18BFS(w, depth)})
 }
